@@ -14,7 +14,10 @@ RULES = {
     "C02": ("same parses as C01; oracle (online): child refs strictly increasing, sibling extents disjoint, child spans nested and "
             "ordered, empty nodes at o..o, no non-root rule node starts/ends with a skipped or Error token; every create_node_* "
             "callback announces a node of the announced kind whose subtree dump equals the surviving node in the final tree. "
-            "non-trivial = tree with an error node, empty node or inserted wrapper"),
+            "non-trivial = tree with an error node, empty node or inserted wrapper. Builder lab: every well-nested history of open / close / "
+            "advance(+skipped tokens) / mark / insert-before-mark (closed at once or left open) / snapshot / truncate / commit up to the stated "
+            "length (exhaustive) plus random histories up to 48 operations on the real CstData, compared node by node (kind, nesting, spans, token "
+            "order) with an explicit reference tree; non-trivial = history with an insertion or a truncation"),
     "C03": ("same parses as C01 on both twins; oracle: no panic (caught, with location), loop probes: same loop activation 64x at "
             "the same position = livelock, cursor beyond the input = runaway, rule probes: 20000 rule entries at one position = "
             "recursion without consuming; process death (stack overflow / abort / 6 GiB limit) = violation; a watchdog expiry "
@@ -49,7 +52,7 @@ MIN = {
 }
 
 
-def main(pid, tier):
+def main(pid, tier, extra=None):
     chk = Check(pid, tier)
     res = campaign.run(tier)
     chk.evaluations = res["evals"].get(pid, 0)
@@ -71,4 +74,6 @@ def main(pid, tier):
         "the arena's lexer, Token enum and ParserCallbacks impl are derived mechanically from the grammar model and the emitted trait",
         "shapes with a known defect are generated only in labelled buckets (DESIGN 4)",
     ]
+    if extra is not None:
+        extra(chk)
     chk.finish(RULES[pid], min_nontrivial=MIN[tier][pid])
